@@ -379,7 +379,10 @@ impl<C: CrcCalculator> Encapsulator<C> {
             }
 
             pkt_type = PktType::FirstFragPkt;
-            pdu_len_encapsulated = buffer_len - min_header_len;
+            // the fragment is limited by the buffer and by the 12 bits GSE length field
+            let first_frag_header_len = FRAG_ID_LEN + TOTAL_LENGTH_LEN + PROTOCOL_LEN + label_len;
+            pdu_len_encapsulated =
+                (buffer_len - min_header_len).min(GSE_LEN_MAX - first_frag_header_len);
             gse_len =
                 (FRAG_ID_LEN + TOTAL_LENGTH_LEN + PROTOCOL_LEN + label_len + pdu_len_encapsulated)
                     as u16;
@@ -680,8 +683,18 @@ impl<C: CrcCalculator> Encapsulator<C> {
                 return Err(EncapError::ErrorPduLength);
             }
 
+            // the fragment is limited by the buffer and by the 12 bits GSE length field
+            let first_frag_header_len =
+                FRAG_ID_LEN + TOTAL_LENGTH_LEN + PROTOCOL_LEN + label_len + total_len_extensions;
+            if GSE_LEN_MAX < first_frag_header_len {
+                // the header extensions alone do not fit in a GSE packet
+                (self.last_label, self.re_current_consecutive) = re_use_state;
+                return Err(EncapError::ErrorPduLength);
+            }
+
             pkt_type = PktType::FirstFragPkt;
-            pdu_len_encapsulated = buffer_len - min_header_len;
+            pdu_len_encapsulated =
+                (buffer_len - min_header_len).min(GSE_LEN_MAX - first_frag_header_len);
             gse_len = (FRAG_ID_LEN
                 + TOTAL_LENGTH_LEN
                 + PROTOCOL_LEN
@@ -890,7 +903,10 @@ pub fn encap_preview(
         }
 
         pkt_type = PktType::FirstFragPkt;
-        pdu_len_encapsulated = buffer_len - min_header_len;
+        // the fragment is limited by the buffer and by the 12 bits GSE length field
+        let first_frag_header_len = FRAG_ID_LEN + TOTAL_LENGTH_LEN + PROTOCOL_LEN + label_len;
+        pdu_len_encapsulated =
+            (buffer_len - min_header_len).min(GSE_LEN_MAX - first_frag_header_len);
         gse_len = (FRAG_ID_LEN + TOTAL_LENGTH_LEN + PROTOCOL_LEN + label_len + pdu_len_encapsulated)
             as u16;
         pkt_len = gse_len + (FIXED_HEADER_LEN) as u16;
